@@ -548,9 +548,108 @@ def gc_correspondence(ck, ref):
 
 
 
+# ------------------------------------------------------------------------------------------------ the emitted string builder
+SB_PIECES = [0, 1, 2, 127, 128, 254, 255, 256, 257, 510, 511, 512, 513, 1023, 1024, 1025, 5000]
+
+
+def sb_extra():
+    inc = os.path.join(vlib.BUILD, 'gen', 'nl_fmt_sb.inc')
+    h = hashlib.sha256(open(inc, 'rb').read()).hexdigest()[:16]
+    return ['-DSB_INC="%s"' % inc, '-DSB_HASH=0x%s' % h]
+
+
+def gen_sb_history(rng, stats):
+    """appends to one builder: single long pieces and runs of short ones, lengths chosen so that len + n + 1 lands just below, on and
+    just above the capacity the builder has at that moment (capacity tracked as the looping rule predicts: cap doubles until it suffices)"""
+    init = rng.choice([256, 256, 256, 0, 1, 128, 257])
+    lines = ['sbnew %d' % init]
+    cap = init or 128; ln = 0
+    for _ in range(rng.randrange(2, 14)):
+        r = rng.random()
+        if r < 0.35:
+            n = rng.choice(SB_PIECES); stats['sb:piece:%d' % n] += 1
+        elif r < 0.7:
+            # land needed = len + n + 1 on cap-1 / cap / cap+1 / 2cap / 2cap+1 / 4cap+1
+            target = rng.choice([cap - 1, cap, cap + 1, 2 * cap, 2 * cap + 1, 4 * cap + 1])
+            n = max(0, target - ln - 1); stats['sb:needed_vs_cap:%s' % ('<=cap' if ln + n + 1 <= cap else '<=2cap' if ln + n + 1 <= 2 * cap else '>2cap')] += 1
+        elif r < 0.85:
+            for _ in range(rng.randrange(1, 40)):
+                lines.append('chr'); ln += 1
+                while ln + 1 > cap: cap *= 2
+            stats['sb:char_runs'] += 1
+            continue
+        else:
+            n = rng.randrange(0, 40); stats['sb:short_piece'] += 1
+        if ln + n > 40000:
+            break
+        lines.append('cstr %d' % n); ln += n
+        while ln + 1 > cap: cap *= 2
+    stats['sb:histories'] += 1
+    return lines
+
+
+def sb_correspondence(ck, ref):
+    from collections import Counter
+    stats = Counter()
+    rng = ck.rng
+    probe = ck.probe('sb_probe.c', 'asan', extra=sb_extra())
+    hist = [['sbnew 256', 'chr', 'cstr 600', 'chr'],                       # the seeded-change witness shape: '[' then one 600-byte piece
+            ['sbnew 256', 'cstr 255', 'cstr 1', 'cstr 255', 'cstr 1', 'cstr 511'],
+            ['sbnew 256'] + ['cstr 3'] * 400]
+    for _ in range(1500 if ck.thorough else 200):
+        hist.append(gen_sb_history(rng, stats))
+    lines = [l for h in hist for l in h]
+    model = vlib.run_lines(ref, lines, timeout=600)
+    # histories the model itself calls undefined (only possible when the growth rule read from the source is not the looping one)
+    pos = 0; defined = []; crashing = []
+    for h in hist:
+        hm = model[pos:pos + len(h)]
+        (crashing if any(m in ('crash', 'loop') for m in hm) else defined).append((h, hm))
+        pos += len(h)
+    dl = [l for h, _ in defined for l in h]
+    rc, o, e = vlib.sh([probe], input=('\n'.join(dl) + '\n').encode(), timeout=600, env=ASAN_ENV)
+    impl = o.splitlines()
+    if rc != 0 or san_lines(e) or len(impl) != len(dl):
+        k = len(impl)
+        ck.fail('c20:sb:crash:' + hashlib.sha256('\n'.join(dl[max(0, k - 20):k + 1]).encode()).hexdigest()[:12],
+                'sb_probe died / sanitizer report on appends the model calls defined (rc=%s) at "%s": %s' % (rc, dl[k] if k < len(dl) else '?', '; '.join(san_lines(e)[:2])),
+                dict(part='sb', history=dl[max(0, k - 20):k + 1], stderr=e[-2500:], engine='sb_probe(asan)'))
+    pos = 0
+    for h, hm in defined:
+        hi = impl[pos:pos + len(h)]
+        ck.count(('sb', tuple(h)), any('cap=' in x and ' cap=256 ' not in x and ' cap=128 ' not in x for x in hm), n=len(hi))
+        for j, (a, m) in enumerate(zip(hi, hm)):
+            if a != m:
+                ck.fail('c20:sb:' + hashlib.sha256('\n'.join(h[:j + 1]).encode()).hexdigest()[:12],
+                        'emitted string builder differs from the model after "%s": impl=%s model=%s' % (h[j], a, m),
+                        dict(part='sb', history=h[:j + 1], expected_model=m, observed_impl=a, correspondence='sb_probe vs nvref_c20'))
+                break
+        pos += len(h)
+    # the failing input when the model (following the source's growth rule) predicts an overflow: replay on the real helpers
+    for h, hm in crashing[:6]:
+        k = next(i for i, m in enumerate(hm) if m in ('crash', 'loop'))
+        rc, o, e = vlib.sh([probe], input=('\n'.join(h[:k + 1]) + '\n').encode(), timeout=60, env=ASAN_ENV)
+        sl = san_lines(e)
+        ck.count(('sb-crash', tuple(h[:k + 1])), True)
+        if rc != 0 and sl:
+            ck.fail('c20:sb:overflow:' + '+'.join(x.replace(' ', '') for x in h[:k + 1])[:80],
+                    'emitted string builder writes outside its block on the appends %r: %s' % (h[:k + 1], sl[0][:160]),
+                    dict(part='sb', history=h[:k + 1], stderr=e[-2500:], engine='sb_probe(asan)', expected_model=hm[k]))
+        else:
+            ck.fail('c20:sb:model-crash-not-real:' + '+'.join(x.replace(' ', '') for x in h[:k + 1])[:80],
+                    'model of the emitted string builder predicts %s on %r but the real helpers survive' % (hm[k], h[:k + 1]),
+                    dict(part='sb', history=h[:k + 1], expected_model=hm[k], observed_impl=o.splitlines()[-1:], correspondence='sb_probe vs nvref_c20'))
+    stats['sb:lines'] = len(lines); stats['sb:histories_model_calls_undefined'] = len(crashing)
+    if impl:
+        k = next((i for i, l in enumerate(dl) if l.startswith('cstr 5000')), 2)
+        ck.sample(dict(op=dl[k], impl=impl[k] if k < len(impl) else None, model=[m for h, hm in defined for m in hm][k]))
+    return dict(stats)
+
+
+
 def run(ck):
     b = ck.build('plain')
-    ck.gen(['gen_rtparams'])
+    ck.gen(['gen_rtparams', 'gen_fmtsb'])
     FLAGS.update(measured_flags())
     c20_native.PUSH_OWN_STRUCT_SAFE = FLAGS['push_self_safe']
     ck.extra['measured_flags'] = dict(FLAGS)
@@ -562,6 +661,7 @@ def run(ck):
     ck.extra['dyn'] = dict(input_distribution=st, crash_cases=crashes)
     n1 = ck.cov['evaluations']
     ck.extra['gc'] = gc_correspondence(ck, ref)
+    ck.extra['string_builder'] = sb_correspondence(ck, ref)
     n2 = ck.cov['evaluations']
     rule_native = c20_native.native(ck, b)
     ck.extra['evaluations_by_part'] = dict(dyn=n1, gc=n2 - n1, native=ck.cov['evaluations'] - n2)
@@ -575,10 +675,13 @@ def run(ck):
                       'gc: generated alloc/retain/release/is_managed/collect histories (well-behaved with raw retain; and with stale releases of freed '
                       'handles + guarded retain) on three engines (ASan, ASan without quarantine = address reuse, plain build); list order, reference '
                       'counts, set membership and statistics compared after every operation; non-trivial = some object released to zero.  '
+                      'sb: the emitted string builder nl_fmt_sb_* (helper text compiled into sb_probe) on append histories whose needed size lands on capacity-1 / capacity / '
+                      'capacity+1 / 2*capacity(+1) / 4*capacity+1 and pieces 0..5000; len, cap, NUL, strlen and a hash of the text compared after every append.  '
                       'native: ' + (rule_native or ''))
     ck.trusted += ['translator tools/gen/dump_rtparams.c + gen_rtparams.py (constants measured by calling dyn_array.c; text of nl_array_slice taken from generate_math_utility_builtins)',
                    'extraction: ExtrOcamlBasic only; extract/nvio.ml, nvio_z.ml, c20_driver.ml',
                    'probes/dyn_probe.c (values passed as raw 64-bit patterns; string/array elements are opaque pointers, never dereferenced by dyn_array.c)',
+                   'translator tools/gen/dump_fmtsb.c + gen_fmtsb.py (growth rule and constants of nl_fmt_sb_ensure read from the emitted text by pattern; the remaining tokens compared with a template); probes/sb_probe.c compiles that text',
                    'probes/gc_probe.c (#includes gc.c to read the private gc_state; allocation addresses are reported by the probe and fed to the model)',
                    'tools/props/c20_native.py (program generator with a Python model of the expected stdout; cc -fsanitize=address,undefined,float-cast-overflow)']
     ck.assumptions += ['gc model: objects without children (gc_struct fields, the element walk of gc_mark and finalizers are not modelled; the native runs exercise them); fewer than 2^32 retains per object; the 256 MB auto-collection threshold is not reached in the probe',
@@ -593,8 +696,19 @@ def replay(ck, d):
     if d.get('key', '').startswith('c20:native:') or 'program' in d:
         ck.build('plain')
         return c20_native.replay_native(ck, d)
-    ck.build('plain'); ck.gen(['gen_rtparams'])
+    ck.build('plain'); ck.gen(['gen_rtparams', 'gen_fmtsb'])
     ref = ck.nvref('c20')
+    if d.get('part') == 'sb':
+        probe = ck.probe('sb_probe.c', 'asan', extra=sb_extra())
+        h = d.get('history') or []
+        rc, o, e = vlib.sh([probe], input=('\n'.join(h) + '\n').encode(), timeout=60, env=ASAN_ENV)
+        impl = o.splitlines(); model = vlib.run_lines(ref, h)
+        for l, a, m in zip(h, impl + ['<died>'] * len(h), model):
+            print('%-12s impl : %s\n%-12s model: %s' % (l, a, '', m))
+        print('rc=%s' % rc); print('\n'.join(san_lines(e)))
+        same = rc == 0 and impl == model
+        print('REPRODUCED' if not same else 'not reproduced')
+        return 0 if same else 1
     if d.get('part') == 'gc':
         variant = 'plain' if 'plain' in d.get('engine', '') else 'asan'
         env = dict(os.environ) if variant == 'plain' else dict(ASAN_ENV)
